@@ -377,6 +377,20 @@ fn run<T: QApi>(q: &mut T, op: &Value, cx: &mut Ctx, ev: &mut Map<String, Value>
             let keep: Vec<String> = op.get("keep").and_then(|v| v.as_array()).map(|a| a.iter().map(|x| x.as_str().unwrap_or("").to_string()).collect()).unwrap_or_default();
             let set = op.get("set").and_then(|v| v.as_object()).cloned().unwrap_or_default();
             let wp = b(op, "wp");
+            let rw = s(op, "rw").to_string();
+            if !rw.is_empty() {
+                // cost engine: keep every element, rewrite every priority (negated / by visiting index)
+                CMPS.with(|c| c.set(0));
+                let mut idx: i64 = 0;
+                q.retain_mut(&mut |_i, p| {
+                    idx += 1;
+                    let nr = if rw == "neg" { -p.rank } else if rw == "idx" { idx } else { -idx };
+                    *p = Pri::new_raw(nr, 0);
+                    true
+                });
+                ev.insert("calls".into(), json!([]));
+                return;
+            }
             let keepmod = n(op, "keepmod");
             if keepmod > 0 {
                 // cost engine: keep every element whose numeric suffix is not a multiple of keepmod; calls not logged
@@ -920,6 +934,23 @@ impl<W: Write> Interp<W> {
                         self.qs.insert(to, q);
                     }
                     Err(e) => panicked = Some(msg_of(e)),
+                }
+            }
+            "clone_from" => {
+                // Clone::clone_from: queue q becomes a copy of queue src (reusing q's allocations if it likes)
+                let src = n(op, "src");
+                ev.insert("src".into(), json!(src));
+                let other = self.qs.get(&src).expect("harness: clone_from of missing queue").clone();
+                let me = self.qs.get_mut(&qid).expect("harness: clone_from into missing queue");
+                let r = catch_unwind(AssertUnwindSafe(|| match (me, &other) {
+                    (Q::PqS(x), Q::PqS(y)) => x.clone_from(y),
+                    (Q::PqH(x), Q::PqH(y)) => x.clone_from(y),
+                    (Q::DqS(x), Q::DqS(y)) => x.clone_from(y),
+                    (Q::DqH(x), Q::DqH(y)) => x.clone_from(y),
+                    _ => panic!("harness: clone_from across types"),
+                }));
+                if let Err(e) = r {
+                    panicked = Some(msg_of(e));
                 }
             }
             "drop" => {
